@@ -57,8 +57,8 @@ theorem sendTests_refines (guard : Bool) {s s' : State τ} {e e' : Env} {n : Nat
       simp only [hb, bind, Except.bind] at h
       unfold Env.sendRun Env.send at h
       by_cases hbr : (e.flags.get n).broken = true
-      · simp [hbr] at h
-      · simp [hbr] at h
+      all_goals
+        simp [hbr] at h
         obtain ⟨rfl, rfl⟩ := h
         refine ⟨[.send n k guard], ?_, ?_, ⟨rfl, rfl, rfl, rfl⟩⟩
         · have hsd : (guard && e.flags.shuttingDown n) = false := by
@@ -715,8 +715,8 @@ theorem sendTests_flags {s s' : State τ} {e e' : Env} {n : Nat} {num : Int}
       simp only [hb, bind, Except.bind] at h
       unfold Env.sendRun Env.send at h
       by_cases hbr : (e.flags.get n).broken = true
-      · simp [hbr] at h
-      · simp [hbr] at h
+      all_goals
+        simp [hbr] at h
         obtain ⟨rfl, rfl⟩ := h
         refine ⟨rfl, ?_⟩
         simp only [nodes]
